@@ -249,13 +249,24 @@ def w_filter(case):
         prior_ = pints.ComposedLogPrior(*[pints.UniformLogPrior(0, 5)
                                           for _ in range(4)])
         times_ = [0.5 + 0.7 * k_ for k_ in range(T)][::-1]
+        inside = None
         try:
-            chi.PopulationFilterLogPosterior(
+            post_ = chi.PopulationFilterLogPosterior(
                 f, times_, ToyModel(2, n_obs_), pop_, prior_,
                 sigma=[0.3] * n_obs_, n_samples=sim.shape[0])
             after = f.compute_log_likelihood(sim.copy())
+            # the filter the posterior works with expects simulated measurements
+            # at the SORTED times (here: the reversed order)
+            inside = post_.get_log_likelihood().compute_log_likelihood(
+                sim[..., ::-1].copy())
         except Exception as e:      # construction is C13's subject
             after = got
+        if inside is not None and not tol.close(inside, got):
+            viol.append({'sub': 'filter_in_posterior', 'message': 'the filter inside '
+                         'a log-posterior built with unsorted times does not score '
+                         'simulations at the sorted times like the caller\'s filter '
+                         'scores them in its own order (%s)' % lab, 'expected': got,
+                         'observed': inside, 'behaviour': 'filter_in_posterior'})
         ntr += 2
         if not tol.close(after, got):
             viol.append({'sub': 'filter_kept', 'message': 'building a log-posterior '
@@ -455,3 +466,6 @@ META = {
     'level_note': 'Exhaustive over masks and orders within the shape bounds; generic '
                   'positive values. Reference typed from the class documentation.',
 }
+META['level_text'] += (
+    ' Also: the order handed to sort_times as an array the caller overwrites afterw'
+    'ards; the filter inside a posterior built with unsorted times.')
